@@ -45,10 +45,17 @@ def pparen (D : Data) (k : String) (i : Nat) (x : Expr) : Bool :=
   else if base == "strict" then decide (precOfKind ref > precOfKind (kindName D x))
   else false
 
+/-- `case UNARY_MINUS` prints its operand into a string first and gives it parentheses of its own when that text starts with `-`
+    (`-(-2147483648)`, `-(-2147483648++)`: `--` would be read as a decrement) -/
+def negLead (D : Data) (mt : Nat) (t : Nat) (operand : List Tok) : Bool :=
+  minusParenthesisesNegativeLead && D.tbl.isMinus t && (match operand with | .sym u :: _ => u == mt | _ => false)
+
 /-- the token stream of `expression_t::str()` -/
 def lprint (D : Data) (mt : Nat) : Expr → List Tok
   | .atom a => atomToks mt a
-  | .pre t x => .sym t :: wrap (pparen D (preKind D t) 0 x) (lprint D mt x)
+  | .pre t x =>
+    let operand := wrap (pparen D (preKind D t) 0 x) (lprint D mt x)
+    .sym t :: wrap (negLead D mt t operand) operand
   | .quant k id ty x => .quant k id ty :: wrap (pparen D (quantKind D k) 1 x) (lprint D mt x)
   | .post t x => wrap (pparen D (postKind D t) 0 x) (lprint D mt x) ++ [.sym t]
   | .dot n x => wrap (pparen D "DOT" 0 x) (lprint D mt x) ++ [.dot n]
